@@ -159,3 +159,39 @@ Proof.
   unfold lenN at 1. rewrite Nat2N.id. rewrite next_app by reflexivity.
   rewrite dec_flow_record_unknown by exact Hk. reflexivity.
 Qed.
+
+(* ---- C14 ---- *)
+From GF Require Import Model.ProdNF Model.NF Spec.BitSpec.
+
+(* traffic that no NetFlow/IPFIX mapping matches is converted exactly as without those mappings *)
+Lemma nf_fields_unmatched cfg ver base up : forall r m,
+  (forall f, In f r -> nf_lookup (if ver =? 9 then pNF9 cfg else pIPFIX cfg) f = None) ->
+  nf_fields cfg ver base up m r =
+  nf_fields {| pNF9 := []; pIPFIX := []; pPacket := pPacket cfg; pNilCfg := pNilCfg cfg |} ver base up m r.
+Proof.
+  induction r as [|f r IH]; intros m H; [reflexivity|].
+  cbn [nf_fields]. destruct (dVal f) as [v|]; [|apply IH; intros g Hg; apply H; right; exact Hg].
+  rewrite (H f (or_introl eq_refl)).
+  replace (nf_lookup (if ver =? 9 then pNF9 _ else pIPFIX _) f) with (@None mapcfg)
+    by (cbn [pNF9 pIPFIX]; destruct (ver =? 9); reflexivity).
+  destruct (dPenP f).
+  - apply IH. intros g Hg. apply H. right. exact Hg.
+  - replace (nf_field {| pNF9 := []; pIPFIX := []; pPacket := pPacket cfg; pNilCfg := pNilCfg cfg |} ver base up m (dType f) v)
+      with (nf_field cfg ver base up m (dType f) v).
+    + destruct (nf_field cfg ver base up m (dType f) v); try reflexivity.
+      apply IH. intros g Hg. apply H. right. exact Hg.
+    + unfold nf_field. cbn [pPacket]. reflexivity.
+Qed.
+
+Definition basis : list N := [0; 1; 2; 4; 8; 16; 32; 64; 128; 255; 170; 85].
+Definition small_bufs : list bytes := [] :: map (fun a => [a]) basis ++ flat_map (fun a => map (fun b => [a; b]) basis) basis.
+Definition gb_agree (d : bytes) (off len : nat) (sh : bool) : bool :=
+  match get_bytes d (Z.of_nat off) (Z.of_nat len) sh with
+  | Ok b => (fix eq (x y : bytes) := match x, y with [] , [] => true | p :: r, q :: s => (p =? q) && eq r s | _, _ => false end)
+              b (get_bits_spec d off len sh)
+  | _ => false
+  end.
+Lemma getbytes_small_l :
+  forallb (fun d => forallb (fun off => forallb (fun len => gb_agree d off len true && gb_agree d off len false)
+                                        (seq 0 18)) (seq 0 18)) small_bufs = true.
+Proof. vm_compute. reflexivity. Qed.
